@@ -81,7 +81,13 @@ def keys_of(v, vec):
             out.append((cfg + ":interleaved-" + k, desc))
         for k in sorted(g["stored"]):
             out.append((cfg + ":stored-replicas-" + k, desc))
+    if v.get("xov", 0) > 0:
+        out.append((cfg + ":executor-concurrent-nexthost", "queryExecutor with speculative execution: %d call(s) entered the NextHost "
+                    "function of one query while another call was inside it; offered %s" % (v["xov"], [g["picks"] for g in vec["groups"]])))
     for g in v["bad"]:
+        for k in sorted(g.get("stored", [])):
+            out.append((cfg + ":stored-replicas-" + k, "routing token %s: the policy's replica map holds %s, Cassandra's placement on the "
+                        "ring members (up or down) is %s" % (g["q"], g["realrep"], g["placement"])))
         kinds = set(g["kinds"])
         desc = "routing token %s: offered %s; up replicas near=%s far=%s (reference %s); predicted %s" % (
             g["q"], g["got"], g["near"], g["far"], g["reps"], g["predicted"])
@@ -193,6 +199,7 @@ def run(ctx):
     ctx.log("generated %d cases, %d predicted picks, %d policy/option combinations" % (ncases, npicks_pred, len(cfgs)))
     sample_case = cases[ncases * 3 // 5]
     exp = {c["id"]: [g["exp"] for g in c["groups"]] for c in cases}
+    place = {c["id"]: [g["place"] for g in c["groups"]] for c in cases}
     del cases
 
     # ---- 2. execute on the real policy objects
@@ -213,7 +220,9 @@ def run(ctx):
             vec = json.loads(line)
             picks_real += sum(len(g["picks"]) for g in vec["groups"])
             same = vec["pclass"] == "none" and len(vec["groups"]) == len(exp[vec["id"]]) and all(
-                g["picks"] == e and not any(g["capped"]) for g, e in zip(vec["groups"], exp[vec["id"]]))
+                g["picks"] == e and not any(g["capped"]) for g, e in zip(vec["groups"], exp[vec["id"]])) and all(
+                # ... and the replica list the policy holds is Cassandra's placement, element for element
+                g["realrep"] == pl for g, pl in zip(vec["groups"], place[vec["id"]]))
             if same and vec["il"]:
                 # interleaved iterators have no predicted sequence: TLC judges them (the sequential groups,
                 # identical to the prediction, need not be judged again)
@@ -262,8 +271,36 @@ def run(ctx):
         ctx.add_drift("%d random vector(s): the property predicates hold but %s differs from Policies.tla's prediction; e.g. id %s %s"
                       % (len(rdrift), sorted(d["drift"]), d["id"], json.dumps(d["driftsample"])[:600]))
 
-    # ---- 5. concurrent safety run (race detector in the thorough tier)
+    # ---- 5. picks driven through the real queryExecutor with speculative execution (race detector in the
+    #         thorough tier): the one iterator of a query is shared by the main and the speculative executions
     cbin = binary if quick else vf.build_gotest(ctx, ".", harness_dirs("c10", "c11"), race=True)
+    xp = os.path.join(ctx.tmp, "pexec.ndjson")
+    nexec = 40 if quick else 300
+    rc, out = vf.run_gotest(ctx, cbin, "^TestVfC11Executor$", env={"VF_RESULTS": xp, "VF_COUNT": nexec}, timeout=900, check=False)
+    xvecs, tr4 = [], None
+    if "WARNING: DATA RACE" in out:
+        ctx.violation("executor-data-race", "the race detector reported a data race while one query ran through queryExecutor "
+                      "with speculative execution", out[out.index("WARNING: DATA RACE"):][:3000])
+    elif rc != 0 or "VFSUMMARY" not in out:
+        mm = re.search(r"^(panic|fatal error): [^\n]*", out, re.M)
+        if mm:
+            ctx.violation("executor-crash", "the process died while one query ran through queryExecutor with speculative "
+                          "execution: " + mm.group(0), out[-3000:])
+        else:
+            raise vf.Inconclusive("executor driver failed (rc=%s):\n%s" % (rc, out[-3000:]))
+    else:
+        xvecs = vf.read_ndjson(xp)
+        if len(xvecs) != nexec:
+            raise vf.Inconclusive("executor driver wrote %d of %d vectors" % (len(xvecs), nexec))
+        xviol, xdrift, tr4 = validate(ctx, "executor", xvecs, 600)
+        xgroups = report(ctx, xviol, {v["id"]: v for v in xvecs}, "queries through queryExecutor with speculative execution")
+        ctx.log("executor: %d queries, %s" % (len(xvecs), {k: len(v) for k, v in xgroups.items()}))
+        if xdrift:
+            d = next(iter(xdrift.values()))
+            ctx.add_drift("%d executor vector(s): the predicates hold but %s differs from the prediction; e.g. id %s"
+                          % (len(xdrift), sorted(d["drift"]), d["id"]))
+
+    # ---- 6. concurrent safety run (race detector in the thorough tier)
     sp = os.path.join(ctx.tmp, "psafety.ndjson")
     rounds = 12 if quick else 60
     rc, out = vf.run_gotest(ctx, cbin, "^TestVfC11Concurrent$", env={"VF_RESULTS": sp, "VF_COUNT": rounds,
@@ -297,12 +334,13 @@ def run(ctx):
                                                                sum(r["mutations"] for r in srecs)))
 
     # ---- evidence
-    trs = [t for t in (tr1, tr2, tr3) if t]
+    trs = [t for t in (tr1, tr2, tr3, tr4) if t]
     sample_vec = (differ or sampled)[0]
     ctx.cov = dict(
         states=sum(g.distinct for g in gens) + sum(t.distinct for t in trs),
         transitions=sum(g.generated for g in gens) + sum(t.generated for t in trs),
-        traces_validated_against_impl=ncases + len(rvecs) + len(srecs),
+        traces_validated_against_impl=ncases + len(rvecs) + len(srecs) + len(xvecs),
+        executor_queries=len(xvecs),
         exhaustive=True, generator_cfg=cfg,
         enumerated_cases=ncases, policy_option_combinations=len(cfgs), picks_predicted=npicks_pred, picks_drained=picks_real,
         exact_agreement=agree, interleaved_cases=n_il, interleaved_iterators=iters_il, judged_by_tlc_predicates=len(vecs), accepted_with_other_replica_order=other_order - len(drift),
